@@ -278,15 +278,19 @@ def self_test():
 
 # ---------------------------------------------------------------------------
 # part vec_arith: + - * / neg scale dot, sum() support, default constructor
-G3 = (0, -1, 2)
-G4 = (0, 1, -1, 2)
+G3 = (0, -1, '3/2')             # one non-integer value: exact Fractions
+G4 = (0, 2, -1, '3/2')
+GI3 = (0, -1, 2)                # integer grids for the square-root part
+GI4 = (0, 1, -1, 2)
 DEN = (-1, 2, '1/2')
 NEGS = (0, -1, 2, '1/2')
 SCALARS = (0, -1, '1/2', 3)
 
 
-def grid_for(tier, cls):
-    return G4 if tier == 'thorough' and cls != 'Vec4' else G3
+def grid_for(tier, cls, integer=False):
+    if tier == 'thorough' and cls != 'Vec4':
+        return GI4 if integer else G4
+    return GI3 if integer else G3
 
 
 def cases_vec_arith(tier):
@@ -415,7 +419,7 @@ def cases_vec_lerp(tier):
     for cls in VECS:
         n = DIM[cls]
         for ab in product(G3, repeat=2 * n):
-            for al in ALPHAS + (('-1', 3) if tier == 'thorough'
+            for al in ALPHAS + ((-1, 3) if tier == 'thorough'
                                 and cls != 'Vec4' else ()):
                 cases.append((cls, 'lerp', ab[:n], ab[n:], al))
     return cases
@@ -448,7 +452,7 @@ def cases_vec_distance(tier):
     cases = []
     for cls in VECS:
         n = DIM[cls]
-        g = grid_for(tier, cls)
+        g = grid_for(tier, cls, integer=True)
         for ab in product(g, repeat=2 * n):
             cases.append((cls, 'distance', ab[:n], ab[n:]))
         for a in product((0, 1, -1, 2, -3), repeat=n):
@@ -456,7 +460,8 @@ def cases_vec_distance(tier):
     if tier == 'thorough':
         seven = range(-3, 4)
         for ab in product(seven, repeat=4):
-            cases.append(('Vec2', 'distance', ab[:2], ab[2:]))
+            if not all(x in GI4 for x in ab):       # not listed above
+                cases.append(('Vec2', 'distance', ab[:2], ab[2:]))
     return cases
 
 
